@@ -225,5 +225,5 @@ def check(case):
 
 SUBCHECKS = [
     Sub("history", check, strategy=lambda tier: case_strategy(),
-        quick=1500, thorough=30000, min_share={"nontrivial": 0.1, "mutations": 0.15, "rejects": 0.15}),
+        quick=3000, thorough=150000, min_share={"nontrivial": 0.1, "mutations": 0.15, "rejects": 0.15}),
 ]
